@@ -87,7 +87,7 @@ def stepLine (st : St) (line : String) : St × List String :=
   | ["ss-new", b, n] =>
     match b.toNat?, n.toNat? with
     | some b, some n =>
-      let w : SoftStop.W := { base := b, slab := n }
+      let w : SoftStop.W := { base := b, slab := n, sessions := n - b }
       ({ st with ss := w }, ["ss " ++ showSS w])
     | _, _ => (st, ["bad-op"])
   | ["ss-stop", i] =>
@@ -108,7 +108,7 @@ def stepLine (st : St) (line : String) : St × List String :=
     -- sessions with a request in flight + sessions that report shutting_down() at once
     match inflight.toNat?, idle.toNat? with
     | some n, some k =>
-      let w : SoftStop.W := { base := 0, slab := n + k }
+      let w : SoftStop.W := { base := 0, slab := n + k, sessions := n + k }
       ({ st with ss := w, hoIdle := k }, [s!"ho inflight={n} idle={k}"])
     | _, _ => (st, ["bad-op"])
   | ["ho-stop", i] =>
@@ -125,6 +125,9 @@ def stepLine (st : St) (line : String) : St × List String :=
       let (w, o) := SoftStop.step st.ss (.tick k)
       ({ st with ss := w }, [showSSOut o ++ s!" exited={boolStr w.exited}"])
     | none => (st, ["bad-op"])
+  | ["ho-return"] =>
+    let (w, o) := SoftStop.step st.ss .returnListeners
+    ({ st with ss := w }, [showSSOut o ++ s!" exited={boolStr w.exited}"])
   | ["ho-connect"] =>
     let (w, o) := SoftStop.step st.ss .connect
     ({ st with ss := w }, [showSSOut o ++ s!" exited={boolStr w.exited}"])
